@@ -336,9 +336,19 @@ HandleUeNasO(amf, i, t, ngapMsg, o) ==
                    m.name)
           [] m.name = "SecurityModeComplete" ->
                LET acc == DlProtect(c1.sec, NasEncode(NasRegAccept(ch)), 2)
-                   c2 == [c1 EXCEPT !.st = "icsSent", !.sec = acc.sec, !.await = {"ICSResp"}] IN
+                   c2 == [c1 EXCEPT !.st = "icsSent", !.sec = acc.sec, !.await = {"ICSResp"}]
+                   \* the complete initial message repeated in the NAS message container (IEI 71, TS 24.501 5.4.2.3): a REGISTRATION
+                   \* REQUEST of the same subscriber with the same security capability as the one that opened the procedure
+                   ct == NasOpt(m, 113)
+                   inr == IF ct.has THEN NasDecode(ct.v) ELSE [ok |-> FALSE, why |-> ""]
+                   cont == IF ~ct.has THEN {}
+                           ELSE IF ~inr.ok THEN {who \o ": the NAS message container does not hold a NAS message: " \o inr.why}
+                           ELSE IF inr.m.name # "RegistrationRequest" THEN {who \o ": the NAS message container holds " \o inr.m.name \o ", not the REGISTRATION REQUEST"}
+                           ELSE SuciChecks(inr.m.mand[2], c.u, who \o " (REGISTRATION REQUEST in the NAS message container)")
+                                \cup (IF NasOpt(inr.m, 46).has /\ NasOpt(inr.m, 46).v = c.capab THEN {}
+                                      ELSE {who \o ": the REGISTRATION REQUEST in the NAS message container carries another UE security capability than the initial one"}) IN
                Res(SetCtx(amf, i, c2), << NgapEncode(InitialContextSetupRequest(c2, ch, acc.bytes, FALSE)) >>,
-                   base \cup o.complaints \cup stMust({"smcSent"}) \cup hdrMust({4}), m.name)
+                   base \cup o.complaints \cup cont \cup stMust({"smcSent"}) \cup hdrMust({4}), m.name)
           [] m.name = "RegistrationComplete" ->
                LET cu == DlProtect(c1.sec, NasEncode(NasCfgUpdate(ch)), 2)
                    c2 == [c1 EXCEPT !.st = "registered", !.sec = cu.sec] IN
